@@ -136,6 +136,251 @@ def p_C12(tier, seed):
     return f
 
 
+# ------------------------------------------------------------------ C06 sorted consumption
+def p_C06(tier, seed):
+    n, mp = scope(tier, (4, 2), (5, 2))
+
+    def extra(kind, keys, maxp):
+        m = len(keys)
+        out = []
+        if kind == "pq":
+            out.append([{"op": "sorted", "mode": "vec"}])
+            out.append([{"op": "sorted", "mode": "pop"}])
+            out.append([{"op": "sorted", "mode": "iter", "calls": [0] * (m + 2)}])
+        else:
+            out.append([{"op": "sorted", "mode": "asc_vec"}])
+            out.append([{"op": "sorted", "mode": "desc_vec"}])
+            # every interleaving of next / next_back, up to 2 calls past exhaustion
+            import itertools
+            for cs in itertools.product((0, 1), repeat=m + 2):
+                out.append([{"op": "sorted", "mode": "iter", "calls": list(cs)}])
+        return out
+    f = engines.engine_A("C06", ["pq", "dpq"], n, mp, lambda p: False, [], extra_probes=extra)
+    f.merge(engines.engine_C("C06", ["pq", "dpq"], ["sorted"], scope(tier, [0, 1, 2, 3], [0, 1, 2, 3, 4, 5]),
+                             scope(tier, 4, 6), adaptors=False, forget=False))
+    nh, nk, no = scope(tier, (8, [16, 40], 200), (32, [16, 40, 100], 1000))
+    f.merge(engines.engine_B("C06", ["pq", "dpq"], seed, nh, nk, no, check_every=4))
+    return f
+
+
+# ------------------------------------------------------------------ C07 bulk construction / extend / append
+HINTS = [None, [0, -1], "actual", "actual+3", [0, -4], [0, -2], [0, -3], "lo_actual"]
+
+
+def hint_for(h, m):
+    if h == "actual":
+        return [0, m]
+    if h == "actual+3":
+        return [0, m + 3]
+    if h == "lo_actual":
+        return [m, -1]
+    return h
+
+
+def p_C07(tier, seed):
+    import itertools
+    import random
+    n, mp = scope(tier, (3, 1), (4, 2))
+    rng = random.Random(seed)
+
+    def extra(kind, keys, maxp):
+        out = []
+        pri = list(range(maxp + 1))
+        allp = [[k, r] for k in keys for r in pri]
+        seqs = [[]] + [[a] for a in allp] + [[a, b] for a in allp for b in allp]
+        seqs += [[a, b, c] for a in allp for b in allp for c in allp if len({a[0], b[0], c[0]}) < 3][:200]
+        for prs in seqs:
+            for h in HINTS:
+                st = {"op": "extend", "pairs": prs}
+                hh = hint_for(h, len(prs))
+                if hh is not None:
+                    st["hint"] = hh
+                out.append([st])
+        # construction from vectors / iterators, conversions, appends with small other queues
+        for prs in seqs:
+            out.append([{"op": "from_vec", "q": 2, "pairs": prs}])
+            for h in (None, [0, -1], "actual+3"):
+                st = {"op": "from_iter", "q": 2, "pairs": prs}
+                hh = hint_for(h, len(prs))
+                if hh is not None:
+                    st["hint"] = hh
+                out.append([st])
+        out.append([{"op": "convert"}, {"op": "convert"}])
+        others = [[]] + [[a] for a in allp] + [[a, b] for a in allp for b in allp if a[0] != b[0]]
+        others += [[a, b, c] for a in allp for b in allp for c in allp if len({a[0], b[0], c[0]}) == 3]
+        for o in others:
+            out.append([{"op": "new", "q": 2}] + [{"op": "push", "q": 2, "k": k, "r": r} for k, r in o]
+                       + [{"op": "append", "q": 1, "o": 2}, {"op": "push", "q": 2, "k": keys[0], "r": 0}])
+        return out
+    f = engines.engine_A("C07", ["pq", "dpq"], n, mp, lambda p: False,
+                         ["contents", "sorted:pop", "sorted:pop_min", "sorted:pop_max"], extra_probes=extra)
+    # both sides of the push-versus-rebuild threshold: needs len >= 8
+    cases = []
+    for kind in ("pq", "dpq"):
+        for ln in scope(tier, (8, 9, 16, 33), (8, 9, 15, 16, 17, 31, 32, 33, 40, 64)):
+            keys = ["k%d" % i for i in range(ln + 6)]
+            base = [{"op": "push", "k": keys[i], "r": rng.randint(-3, 6)} for i in range(ln)]
+            probes = []
+            for m in (1, 2, 3, 5, ln // 2, ln, ln + 4):
+                prs = [[rng.choice(keys), rng.randint(-3, 6)] for _ in range(m)]
+                for h in HINTS + [[0, 40], [0, 4 * ln], [3, -1], [2 * ln, -1]]:
+                    st = {"op": "extend", "pairs": prs}
+                    hh = hint_for(h, m)
+                    if hh is not None:
+                        st["hint"] = hh
+                    probes.append([st])
+            cases.append({"case": [kind, "T", ln], "kind": kind, "hasher": "std", "universe": keys, "steps": base,
+                          "probes": probes, "wit": ["contents", "sorted:pop", "sorted:pop_min", "sorted:pop_max"]})
+    wd = vlib.workdir("C07_T")
+    t = engines.Findings()
+    t.stats["engines"].append({"engine": "T", "what": "extend on both sides of the rebuild threshold", "cases": len(cases)})
+    engines.replay_and_validate(cases, wd, "T", t)
+    f.merge(t)
+    return f
+
+
+# ------------------------------------------------------------------ C08 in-place bulk mutation
+def p_C08(tier, seed):
+    n, mp = scope(tier, (4, 2), (5, 2))
+    wit = ["contents", "sorted:pop", "sorted:pop_min", "sorted:pop_max", "sorted:alt"]
+    f = engines.engine_A("C08", ["pq", "dpq"], n, mp, lambda p: p["op"] in INPLACE, wit)
+    nh, nk, no = scope(tier, (8, [16, 30], 300), (32, [16, 30, 60], 1500))
+    f.merge(engines.engine_B("C08", ["pq", "dpq"], seed, nh, nk, no, check_every=3,
+                             weights={"retain": 8, "retain_mut": 10, "iter_mut": 10, "pop_if": 15}))
+    return f
+
+
+# ------------------------------------------------------------------ C09 / C13 iterators
+def p_C09(tier, seed):
+    sizes, depth = scope(tier, ([0, 1, 2, 3], 5), ([0, 1, 2, 3, 4, 5], 7))
+    return engines.engine_C("C09", ["pq", "dpq"], ["iter_mut", "iter_mut_ref"], sizes, depth)
+
+
+def p_C13(tier, seed):
+    sizes, depth = scope(tier, ([0, 1, 2, 3], 4), ([0, 1, 2, 3, 4, 5], 6))
+    return engines.engine_C("C13", ["pq", "dpq"], ["iter", "iter_ref", "into_iter", "drain", "sorted"], sizes, depth)
+
+
+# ------------------------------------------------------------------ C14 equality and clones
+def p_C14(tier, seed):
+    n, mp = scope(tier, (3, 1), (4, 1))
+
+    def run_kind(kind):
+        # pass 1: the covering histories; pass 2: every ordered pair of states compared
+        wd = vlib.workdir("C14_mc_" + kind)
+        consts = {"Items": vlib.tla_set(engines.keyset(n)), "MaxP": str(mp), "Kind": vlib.tla_str(kind), "Emit": "TRUE"}
+        mc = vlib.run_mc("MCQueue", consts, ["WFInv", "OrdInv", "Refines", "PeekInv", "EmitInv"], wd)
+        if mc["violated"]:
+            raise ToolError("MCQueue invariant violated: %s" % mc["violated"])
+        reps = mc["replay"]
+        g = engines.Findings()
+        g.stats["states"] += mc["distinct"]
+        g.stats["transitions"] += mc["generated"]
+        cases = []
+        hashers = ["std", "fixed", "collide"]
+        for i, r in enumerate(reps):
+            probes = []
+            for j, o in enumerate(reps):
+                how = [{"op": "new", "q": 2}, {"op": "new", "q": 2, "how": "with_capacity", "cap": 64}][j % 2]
+                build = [how] + [dict(st, q=2) for st in o["steps"]]
+                probes.append(build + [{"op": "eq", "q": 1, "o": 2}, {"op": "ne", "q": 1, "o": 2},
+                                       {"op": "eq", "q": 2, "o": 1}, {"op": "eq", "q": 1, "o": 1}])
+            # clones: every state-changing probe on the clone must leave the source untouched (final witness)
+            probes += [p for p in mc["probes"] if light(p) and p["op"] not in READS]
+            cases.append({"case": [kind, i], "kind": kind, "hasher": hashers[i % 3], "universe": engines.keyset(n),
+                          "steps": r["steps"], "probes": probes, "wit": ["contents"]})
+        g.stats["engines"].append({"engine": "A-pairs", "kind": kind, "states": len(reps), "ordered_pairs": len(reps) ** 2})
+        g.samples.append({"engine": "A-pairs", "kind": kind, "left": reps[len(reps) // 2]["steps"], "right": reps[-1]["steps"]})
+        engines.replay_and_validate(cases, wd, "A-pairs/" + kind, g)
+        return g
+    f = run_kind("pq")
+    f.merge(run_kind("dpq"))
+    return f
+
+
+# ------------------------------------------------------------------ C16 drain and clear
+def p_C16(tier, seed):
+    n, mp = scope(tier, (3, 2), (4, 2))
+
+    def extra(kind, keys, maxp):
+        import itertools
+        pm = "pop" if kind == "pq" else "pop_min"
+        pk = "peek" if kind == "pq" else "peek_max"
+        after = [{"op": pk}, {"op": pm}, {"op": "push", "k": keys[0], "r": 1}, {"op": "push", "k": "z", "r": 0},
+                 {"op": pm}, {"op": "contents"}]
+        out = [[{"op": "clear"}] + after]
+        m = len(keys)
+        pats = set()
+        for ln in range(0, m + 2):
+            for cs in itertools.product((0, 1), repeat=ln):
+                pats.add(cs)
+        for cs in sorted(pats):
+            for forget in (False, True):
+                out.append([{"op": "iter_calls", "it": "drain", "calls": [2] + list(cs) + [2], "forget": forget}] + after)
+        return out
+    f = engines.engine_A("C16", ["pq", "dpq"], n, mp, lambda p: False, ["contents"], extra_probes=extra)
+    f.merge(engines.engine_C("C16", ["pq", "dpq"], ["drain"], scope(tier, [0, 1, 2, 3], [0, 1, 2, 3, 4, 5]),
+                             scope(tier, 4, 6), adaptors=False))
+    return f
+
+
+# ------------------------------------------------------------------ C17 capacity
+AMOUNTS = [0, 1, 7, 100, "max", "max-1", "max/2", "max/8", "isize", "2^45"]
+
+
+def p_C17(tier, seed):
+    n, mp = scope(tier, (3, 1), (4, 2))
+
+    def extra(kind, keys, maxp):
+        pm = "pop" if kind == "pq" else "pop_max"
+        after = [{"op": "push", "k": keys[-1], "r": maxp}, {"op": pm}, {"op": "push", "k": "z", "r": 0}, {"op": "remove", "k": keys[0]}]
+        out = []
+        for op in ("reserve", "reserve_exact", "try_reserve", "try_reserve_exact"):
+            for a in AMOUNTS:
+                # a big but representable request makes the infallible variants abort in the allocator
+                # (out of memory is the environment, not the crate): only the try_ variants get those
+                if a == "2^45" and not op.startswith("try"):
+                    continue
+                out.append([{"op": op, "n": a}] + after)
+        out.append([{"op": "shrink_to_fit"}] + after)
+        out.append([{"op": "reserve", "n": 100}, {"op": "shrink_to_fit"}] + after)
+        return out
+    f = engines.engine_A("C17", ["pq", "dpq"], n, mp, lambda p: False, ["contents", "sorted:pop", "sorted:pop_max"], extra_probes=extra)
+    # constructors with capacity, and capacity operations interleaved anywhere in random histories
+    import random
+    rng = random.Random(seed)
+    cases = []
+    for kind in ("pq", "dpq"):
+        for i in range(scope(tier, 6, 24)):
+            keys, steps = engines.random_history(rng, kind, rng.choice([8, 20]), scope(tier, 150, 600), list(range(-3, 8)), None, 10)
+            mixed = [{"op": "new", "q": 0, "how": rng.choice(["with_capacity", "with_capacity_and_default_hasher"]),
+                      "cap": rng.choice([0, 1, 10, 1000])}]
+            for st in steps:
+                if rng.random() < 0.15:
+                    op = rng.choice(["reserve", "reserve_exact", "try_reserve", "try_reserve_exact", "shrink_to_fit"])
+                    mixed.append({"op": op, "n": rng.choice(AMOUNTS if op.startswith("try") else [0, 1, 7, 100])})
+                mixed.append(st)
+            cases.append({"case": [kind, "cap", i], "kind": kind, "hasher": "std", "universe": keys, "steps": mixed,
+                          "probes": [], "wit": []})
+    wd = vlib.workdir("C17_R")
+    t = engines.Findings()
+    t.stats["engines"].append({"engine": "B-cap", "cases": len(cases)})
+    engines.replay_and_validate(cases, wd, "B-cap", t)
+    f.merge(t)
+    return f
+
+
+# ------------------------------------------------------------------ C18 hashers
+def p_C18(tier, seed):
+    n, mp = scope(tier, (3, 2), (4, 2))
+    hs = ("std", "fixed", "fnv", "collide", "random")
+    f = engines.engine_A("C18", ["pq", "dpq"], n, mp, light, ["contents", "sorted:pop", "sorted:pop_min", "sorted:pop_max"],
+                         hashers=hs)
+    nh, nk, no = scope(tier, (10, [16, 40], 300), (40, [16, 40, 100], 1500))
+    f.merge(engines.engine_B("C18", ["pq", "dpq"], seed, nh, nk, no, hashers=hs))
+    return f
+
+
 PROPS = {
     "C01": {"run": p_C01, "level": "model_checking",
             "relevant": lambda fl: fl["kind"] == "pq" and bool(set(fl["tags"]) & ORDER_TAGS)},
@@ -145,6 +390,29 @@ PROPS = {
             "relevant": lambda fl: bool(set(fl["tags"]) & CONTENT_TAGS)},
     "C04": {"run": p_C04, "level": "model_checking", "aborts": True,
             "relevant": lambda fl: bool(set(fl["tags"]) & SAFETY_TAGS)},
+    "C06": {"run": p_C06, "level": "model_checking",
+            "relevant": lambda fl: (fl["op"] == "sorted" and fl["event"].get("mode") in ("vec", "iter", "asc_vec", "desc_vec")) or
+            (fl["op"] == "into_calls" and fl["cause"].get("it") == "sorted"
+             and bool(set(fl["tags"]) & {"iter_order", "iter_dup", "iter_unknown", "iter_missing", "iter_after_none", "iter_len"}))},
+    "C07": {"run": p_C07, "level": "model_checking",
+            "relevant": lambda fl: fl["cause_op"] in BULK},
+    "C08": {"run": p_C08, "level": "model_checking",
+            "relevant": lambda fl: fl["cause_op"] in INPLACE},
+    "C09": {"run": p_C09, "level": "model_checking",
+            "relevant": lambda fl: fl["op"] == "iter_calls" and fl["cause"].get("it") in ("iter_mut", "iter_mut_ref")},
+    "C13": {"run": p_C13, "level": "model_checking",
+            "relevant": lambda fl: fl["op"] in ("iter_calls", "into_calls")
+            and fl["cause"].get("it") in ("iter", "iter_ref", "into_iter", "drain", "sorted")
+            and bool(set(fl["tags"]) & {"iter_dup", "iter_unknown", "iter_missing", "iter_after_none", "iter_len", "iter_hint", "iter_panic"})},
+    "C14": {"run": p_C14, "level": "model_checking",
+            "relevant": lambda fl: fl["op"] in ("eq", "ne", "clone") or fl["phase"] == "hist"
+            or (fl["op"] in ("contents",) and fl.get("event", {}).get("q") == 0)},
+    "C16": {"run": p_C16, "level": "model_checking",
+            "relevant": lambda fl: True},
+    "C17": {"run": p_C17, "level": "model_checking",
+            "relevant": lambda fl: True},
+    "C18": {"run": p_C18, "level": "model_checking",
+            "relevant": lambda fl: bool(set(fl["tags"]) & (ORDER_TAGS | CONTENT_TAGS | SAFETY_TAGS)) and fl["cause_op"] not in BULK},
     "C11": {"run": p_C11, "level": "model_checking",
             "relevant": lambda fl: fl["cause_op"] in PUSHDIR},
     "C12": {"run": p_C12, "level": "model_checking",
